@@ -256,6 +256,7 @@ class Body:
         self.impl_self_adt = j.get("impl_self_adt")
         self.impl_self = j.get("impl_self")
         self.impl_trait = j.get("impl_trait")
+        self.impl_trait_args = j.get("impl_trait_args") or []
         self.in_trait = j.get("in_trait")
         self.is_pub = j.get("pub")
         self.locals = j["locals"]
